@@ -242,6 +242,9 @@ theorem updLoop_spec (habs : ∀ x : α, call "abs" [.val x] = .ok (.val (Val.ab
 
 /-! ### the loop of the inlined `sat` -/
 
+theorem exec_skip (env : Env α) : exec call fuel .skip env = .ok (env, .none) := by
+  rw [exec]
+
 theorem cmpDV_val_int0 (op : BinOp) (x : α) : cmpDV op (.val x) (.int 0) = cmpVal op x Val.zero := by
   simp [cmpDV, isTimeLike, isValLike, toVal]
 
@@ -255,6 +258,211 @@ theorem satChain_spec (habs : ∀ x : α, call "abs" [.val x] = .ok (.val (Val.a
     simp [satChain, satBr, opIs, sx, exec, evalE, hc, hi, resolve_of_key hres, habs, evalBin, isCmp,
       cmpDV_eq_cmp, cmpDV_val_int0, cmpVal, Except.map, truthy, evalIdx_smp1, evalNeg, cmpOfDiff, satOn, satOfDiff,
       numEq, h1, h2]
+
+theorem cmpDV_ne_prev (r : α) (prev : Option α) : cmpDV .ne (.val r) (encPrev prev) = .ok (keepB prev r) := by
+  cases prev with
+  | none => simp [encPrev, cmpDV, isCmp, keepB]
+  | some p => simp [encPrev, keepB, cmpDV_ne_val]
+
+theorem cmpDV_eq_int (a b : Int) : cmpDV (α := α) .eq (.int a) (.int b) = .ok (decide (a = b)) := by
+  simp [cmpDV, cmpInt]
+
+theorem decide_last (k n : Nat) : decide ((k : Int) = (n : Int) - 1) = decide (k + 1 = n) :=
+  decide_eq_decide.mpr (by omega)
+
+theorem exec_ite_bool (c : E) (t e : S) (env : Env α) (b : Bool) (h : evalE call env c = .ok (.bool b)) :
+    exec call fuel (.ite c t e) env = if b then exec call fuel t env else exec call fuel e env := by
+  cases b <;> simp [exec, h, truthy]
+
+theorem exec_appendLoc (x : String) (e : E) (env : Env α) (v : DV α) (l : List (DV α))
+    (hv : evalE call env e = .ok v) (hl : getLoc x env = .ok (.list l)) :
+    exec call fuel (.appendLoc x e) env = .ok (setLoc x (.list (l ++ [v])) env, .none) := by
+  simp [exec, hv, hl]
+
+def satVars : List String := ["sat1$out_val", "sat1$rval", "sat1$sample_result", "sat1$prev"]
+
+theorem satLoopBody_spec (habs : ∀ x : α, call "abs" [.val x] = .ok (.val (Val.abs x)))
+    (hlen : ∀ l : List (DV α), call "len" [.list l] = .ok (.int l.length)) (env : Env α) (c : Cmp)
+    (acc : List (Tm × Bool)) (prev : Option α) (t : Tm) (x : α) (k : Nat) (L : List (DV α))
+    (hc : getLoc "self.comparison_op" env = .ok (.cmp c)) (hi : getLoc "sat1$in_sample" env = .ok (.smp t (.val x)))
+    (hk : getLoc "sat1$i" env = .ok (.int k)) (hL : getLoc "sat1$input_list" env = .ok (.list L))
+    (hp : getLoc "sat1$prev" env = .ok (encPrev prev)) (hr : getLoc "sat1$sample_result" env = .ok (encB acc))
+    (hres : getLoc "abs" env = .error .key) (hresl : getLoc "len" env = .error .key) :
+    ∃ env', exec call fuel satLoopBody env = .ok (env', .none) ∧
+      getLoc "sat1$sample_result" env' = .ok (encB (acc ++
+        if keepB prev (cmpOfDiff c x) || decide (k + 1 = L.length) then [(t, satOn c x)] else [])) ∧
+      getLoc "sat1$prev" env' = .ok (encPrev (some (cmpOfDiff c x))) ∧
+      Frame satVars env env' := by
+  unfold satLoopBody
+  rw [exec_seq_ok _ _ (satChain_spec call fuel habs env c t x hc hi hres)]
+  generalize henv1 : setLoc "sat1$rval" (DV.val (cmpOfDiff c x))
+    (setLoc "sat1$out_val" (DV.bool (satOn c x)) env) = env1
+  have g1 : ∀ k', k' ≠ "sat1$rval" → k' ≠ "sat1$out_val" → getLoc k' env1 = getLoc k' env := by
+    intro k' h1 h2; rw [← henv1]; simp [h1, h2]
+  have grv : getLoc "sat1$rval" env1 = .ok (.val (cmpOfDiff c x)) := by rw [← henv1]; simp
+  have gov : getLoc "sat1$out_val" env1 = .ok (.bool (satOn c x)) := by rw [← henv1]; simp
+  have hrl : resolve env1 "len" = "len" := resolve_of_key (by rw [g1 _ (by decide) (by decide)]; exact hresl)
+  have hcond : evalE call env1
+      (.or_ (.bin .ne (.loc "sat1$rval") (.loc "sat1$prev"))
+        (.bin .eq (.loc "sat1$i") (.bin .sub (.call1 "len" (.loc "sat1$input_list")) (.int 1)))) =
+      .ok (.bool (keepB prev (cmpOfDiff c x) || decide (k + 1 = L.length))) := by
+    cases hkb : keepB prev (cmpOfDiff c x) <;>
+      simp [evalE, grv, g1, hp, hk, hL, hrl, hlen, evalBin, isCmp, cmpDV_ne_prev, hkb, Except.map, truthy, arith,
+        cmpDV_eq_int, decide_last]
+  have hfr : ∀ (v : DV α) (env2 : Env α), Frame satVars env1 env2 → Frame satVars env (setLoc "sat1$prev" v env2) := by
+    intro v env2 f k' hk'
+    have hk'' := hk'
+    simp only [satVars, List.mem_cons, List.not_mem_nil, or_false, not_or] at hk''
+    rw [getLoc_setLoc_ne _ _ _ _ hk''.2.2.2, f _ hk', g1 _ hk''.2.1 hk''.1]
+  unfold satKeep
+  have hite := exec_ite_bool call fuel _
+    (.appendLoc "sat1$sample_result" (.list2 (.idx (.loc "sat1$in_sample") (.int 0)) (.loc "sat1$out_val"))) .skip
+    _ _ hcond
+  cases hB : (keepB prev (cmpOfDiff c x) || decide (k + 1 = L.length)) with
+  | false =>
+      rw [hB] at hite
+      refine ⟨setLoc "sat1$prev" (.val (cmpOfDiff c x)) env1, ?_, ?_, ?_, hfr _ _ (Frame.refl _ _)⟩
+      · rw [exec_seq_ok _ _ (hite.trans (exec_skip call fuel env1))]
+        exact exec_setLoc call fuel (by simp [evalE, grv])
+      · simp [g1, hr]
+      · simp [encPrev]
+  | true =>
+      have ha := exec_appendLoc call fuel "sat1$sample_result"
+        (.list2 (.idx (.loc "sat1$in_sample") (.int 0)) (.loc "sat1$out_val")) env1 (.smp t (.bool (satOn c x)))
+        (acc.map (fun p => DV.smp p.1 (DV.bool p.2)))
+        (by simp [evalE, g1, hi, gov, evalIdx_smp0, mkList2, toPayload])
+        (by rw [g1 _ (by decide) (by decide)]; exact hr)
+      refine ⟨setLoc "sat1$prev" (.val (cmpOfDiff c x)) (setLoc "sat1$sample_result"
+        (.list (acc.map (fun p => DV.smp p.1 (DV.bool p.2)) ++ [.smp t (.bool (satOn c x))])) env1), ?_, ?_, ?_,
+        hfr _ _ ?_⟩
+      · rw [hB] at hite
+        rw [exec_seq_ok _ _ (hite.trans ha)]
+        exact exec_setLoc call fuel (by simp [evalE, grv])
+      · simp [encB, encSigP]
+      · simp [encPrev]
+      · intro k' hk'
+        simp only [satVars, List.mem_cons, List.not_mem_nil, or_false, not_or] at hk'
+        exact getLoc_setLoc_ne _ _ _ _ hk'.2.2.1
+
+def satBind : DV α × Nat → Env α → Env α :=
+  fun p env => setLoc "sat1$in_sample" p.1 (setLoc "sat1$i" (.int p.2) env)
+
+def satAll : List String :=
+  ["sat1$i", "sat1$in_sample", "sat1$out_val", "sat1$rval", "sat1$sample_result", "sat1$prev"]
+
+theorem satLoop_spec (habs : ∀ x : α, call "abs" [.val x] = .ok (.val (Val.abs x)))
+    (hlen : ∀ l : List (DV α), call "len" [.list l] = .ok (.int l.length)) (c : Cmp) (L : List (DV α)) :
+    ∀ (rest : ASig α) (k : Nat) (env : Env α) (acc : List (Tm × Bool)) (prev : Option α),
+      k + rest.length = L.length →
+      getLoc "self.comparison_op" env = .ok (.cmp c) → getLoc "sat1$input_list" env = .ok (.list L) →
+      getLoc "sat1$prev" env = .ok (encPrev prev) → getLoc "sat1$sample_result" env = .ok (encB acc) →
+      getLoc "abs" env = .error .key → getLoc "len" env = .error .key →
+      ∃ env', forLoop satBind (exec call fuel satLoopBody) ((rest.map encSmp).zipIdx k) env = .ok (env', .none) ∧
+        getLoc "sat1$sample_result" env' = .ok (encB (acc ++ satGo c prev rest)) ∧
+        Frame satAll env env' := by
+  intro rest
+  induction rest with
+  | nil =>
+      intro k env acc prev _ hc hL hp hr hres hresl
+      exact ⟨env, rfl, by simpa [satGo] using hr, Frame.refl _ _⟩
+  | cons p rest ih =>
+      obtain ⟨t, x⟩ := p
+      intro k env acc prev hkl hc hL hp hr hres hresl
+      have e0 : (((t, x) :: rest).map encSmp).zipIdx k = (DV.smp t (.val x), k) :: (rest.map encSmp).zipIdx (k + 1) := by
+        simp [List.zipIdx_cons, encSmp]
+      obtain ⟨env1, hb, r1, p1, f1⟩ := satLoopBody_spec call fuel habs hlen (satBind (DV.smp t (.val x), k) env) c acc
+        prev t x k L (by simpa [satBind] using hc) (by simp [satBind]) (by simp [satBind])
+        (by simpa [satBind] using hL) (by simpa [satBind] using hp) (by simpa [satBind] using hr)
+        (by simpa [satBind] using hres) (by simpa [satBind] using hresl)
+      have f1' : Frame satAll env env1 := by
+        intro k' hk'
+        have hk'' := hk'
+        simp only [satAll, List.mem_cons, List.not_mem_nil, or_false, not_or] at hk''
+        rw [f1 _ (by simp [satVars, hk''.2.2.1, hk''.2.2.2.1, hk''.2.2.2.2.1, hk''.2.2.2.2.2])]
+        simp [satBind, hk''.1, hk''.2.1]
+      obtain ⟨env', hx, r', f2⟩ := ih (k + 1) env1 _ (some (cmpOfDiff c x))
+        (by simp only [List.length_cons] at hkl; omega)
+        (by rw [f1' _ (by simp [satAll])]; exact hc) (by rw [f1' _ (by simp [satAll])]; exact hL) p1 r1
+        (by rw [f1' _ (by simp [satAll])]; exact hres) (by rw [f1' _ (by simp [satAll])]; exact hresl)
+      refine ⟨env', ?_, ?_, fun k' hk' => by rw [f2 _ hk', f1' _ hk']⟩
+      · rw [e0, forLoop_cons]
+        simp only [hb, ok_bind]
+        exact hx
+      · rw [r']
+        congr 2
+        cases rest with
+        | nil =>
+            have : k + 1 = L.length := by simpa using hkl
+            simp [satGo, this]
+        | cons q rest' =>
+            have : ¬ (k + 1 = L.length) := by simp only [List.length_cons] at hkl; omega
+            simp [satGo, this]
+
+/-! ### the output loop `for i in range(len(sat_sample))` -/
+
+def encBS (s : List (Tm × Bool)) : List (DV α) := s.map (fun p => DV.smp p.1 (DV.bool p.2))
+
+theorem encB_eq (s : List (Tm × Bool)) : (encB s : DV α) = .list (encBS s) := rfl
+
+theorem evalIdx_nat (L : List (DV α)) (k : Nat) (v : DV α) (h : L[k]? = some v) :
+    evalIdx (.list L) (.int k) = .ok v := by
+  have hk : k < L.length := by
+    rcases Nat.lt_or_ge k L.length with h' | h'
+    · exact h'
+    · rw [List.getElem?_eq_none h'] at h; cases h
+  have hv : L[k] = v := by
+    rw [List.getElem?_eq_getElem hk] at h
+    exact Option.some.inj h
+  simp [evalIdx, pyIndex, hk, hv]
+
+def outBind : DV α × Nat → Env α → Env α :=
+  fun p env => setLoc "$elem_i" p.1 (setLoc "i" (.int p.2) env)
+
+def outVars : List String := ["i", "$elem_i", "sample", "out_sample"]
+
+theorem outLoopBody_spec (env : Env α) (L : List (DV α)) (k : Nat) (t : Tm) (b : Bool) (acc : ASig α)
+    (hs : getLoc "sat_sample" env = .ok (.list L)) (hi : getLoc "i" env = .ok (.int k))
+    (hk : L[k]? = some (.smp t (.bool b))) (ho : getLoc "out_sample" env = .ok (encSig acc)) :
+    exec call fuel outLoopBody env =
+      .ok (setLoc "out_sample" (encSig (acc ++ [(t, infOf b)])) (setLoc "sample" (.uinf (!b)) env), .none) := by
+  cases b <;>
+    simp [outLoopBody, si, exec, evalE, hs, hi, evalIdx_nat _ _ _ hk, evalIdx_smp0, evalIdx_smp1, evalBin, isCmp, cmpDV,
+      Except.map, truthy, evalNeg, mkList2, toPayload, infOf, encSig, encSmp, ho]
+
+theorem outLoop_spec : ∀ (rest pre : List (Tm × Bool)) (env : Env α) (acc : ASig α),
+    getLoc "sat_sample" env = .ok (.list (encBS (pre ++ rest))) → getLoc "out_sample" env = .ok (encSig acc) →
+    ∃ env', forLoop outBind (exec call fuel outLoopBody) ((encBS rest).zipIdx pre.length) env = .ok (env', .none) ∧
+      getLoc "out_sample" env' = .ok (encSig (acc ++ rest.map (fun p => (p.1, infOf p.2)))) ∧
+      Frame outVars env env' := by
+  intro rest
+  induction rest with
+  | nil =>
+      intro pre env acc _ ho
+      exact ⟨env, rfl, by simpa using ho, Frame.refl _ _⟩
+  | cons p rest ih =>
+      obtain ⟨t, b⟩ := p
+      intro pre env acc hs ho
+      have e0 : (encBS ((t, b) :: rest) : List (DV α)).zipIdx pre.length =
+          (DV.smp t (.bool b), pre.length) :: (encBS rest).zipIdx (pre.length + 1) := by
+        simp [List.zipIdx_cons, encBS]
+      have hk : (encBS (pre ++ (t, b) :: rest) : List (DV α))[pre.length]? = some (.smp t (.bool b)) := by
+        simp [encBS]
+      have hb := outLoopBody_spec call fuel (outBind (DV.smp t (.bool b), pre.length) env) _ pre.length t b acc
+        (by simpa [outBind] using hs) (by simp [outBind]) hk (by simpa [outBind] using ho)
+      generalize henv1 : setLoc "out_sample" (encSig (acc ++ [(t, infOf b)]))
+        (setLoc "sample" (DV.uinf (!b)) (outBind (DV.smp t (.bool b), pre.length) env)) = env1 at hb
+      have f1 : Frame outVars env env1 := by
+        intro k' hk'
+        simp only [outVars, List.mem_cons, List.not_mem_nil, or_false, not_or] at hk'
+        rw [← henv1]
+        simp [outBind, hk'.1, hk'.2.1, hk'.2.2.1, hk'.2.2.2]
+      obtain ⟨env', hx, r', f2⟩ := ih (pre ++ [(t, b)]) env1 (acc ++ [(t, infOf b)])
+        (by rw [f1 _ (by simp [outVars]), hs]; simp) (by rw [← henv1]; simp)
+      refine ⟨env', ?_, ?_, fun k' hk' => by rw [f2 _ hk', f1 _ hk']⟩
+      · rw [e0, forLoop_cons]
+        simp only [hb, ok_bind]
+        simpa using hx
+      · simpa using r'
 
 end loops
 
